@@ -14,6 +14,9 @@ CLAIMED = {
  "C05": ("call-graph + def-use flow + dominance over go/ssa; both Dials struct build variants",
          "Decides that incremental re-stacking and a fresh Config are the same computation over the same inputs (same compose, same pristine defaults copy, same slot slice; slot replaced by source identity with exactly the reported value and written nowhere else), that each stored serial is (serial loaded in the same function with no store between) + 1 with the event carrying the same arithmetic and the predecessor config, and that View/ViewVersion read config and serial through exactly one atomic load of one freshly allocated pair.",
          "Not decided: value-level equality of the stacked results (reflection at run time). Trusted: go/ssa lowering, sync/atomic."),
+ "C06": ("reaching-condition truth tables over serial orderings + dominance/path rules + call-graph who-may (go/ssa)",
+         "Decides serialization (one callback goroutine, no spawning, handlers called nowhere else), FIFO consumption by a single consumer, the exact skip predicate (event.serial > handle.minSerial) and catch-up predicate (cfg != nil && registered serial < last announced) as exhaustive truth tables over all orderings, the last-announced bookkeeping, handler argument provenance (old = predecessor loaded before the install), in-order handle-list rebuild, drain-before-exit, and the unregister handshake (true only after the loop's acknowledgement).",
+         "Not decided: behaviour after the documented drop-on-overflow; scheduling. Trusted: Go channel FIFO semantics, go/ssa lowering."),
 }
 
 NOT_YET = {}
